@@ -256,6 +256,16 @@ public:
 		(*callbackList)(std::forward<Args>(args)...);
 	}
 
+	// Invoke the callbacks of an already selected prototype (a PrototypeInfo as produced by
+	// FindPrototypeByArgs) instead of selecting the prototype from the argument types again.
+	// For internal use: HeterEventQueue selects the prototype when an event is enqueued.
+	template <typename PrototypeInfo, typename ...Args>
+	void invokeAs(Args && ...args) const
+	{
+		auto callbackList= doGetCallbackList<PrototypeInfo>();
+		(*callbackList)(std::forward<Args>(args)...);
+	}
+
 private:
 	template <typename RT, int PrototypeIndex, typename Func, typename H, typename CL>
 	auto doForEachInvoke(Func && func, const H & handle, CL && callback) const
